@@ -12,9 +12,12 @@
 //   expect <scope> <fn> <n> <obj> <ign> <ins> <outs> <ret>     ins: name=ENC;...   outs: name=ty:hex;...   ret: ENC or -
 //   begin <scope> <fn> | param <scope> <name> <ENC> | outparam <scope> <name> <ty> | object <scope> <id>
 //   ret <scope> <getter> <call|support> [<default ENC>] | left | check | clear | disable | enable | ignoreothers | strict <scope>
-//   setdata <scope> <name> <ENC> | getdata <scope> <name>
+//   setdata <scope> <name> <ENC> [const|mut]   (objects: setDataConstObject / setDataObject) | getdata <scope> <name>
+//   installcmp <scope> <type name> <whole|first> | installcpy <scope> <type name> <plain|inv> | removeall <scope>
 //   end        (end of the test: verdict)            reset      (next execution)
-// value encodings (ENC) as in mockvalue.cpp:  I|type|neg|h3|h2|h1|h0  B|0/1  P|v/c/f|id  S|hex  M|hex  D|k|neg|q|tk|tneg|tq  O|Type|content
+// value encodings (ENC) as in mockvalue.cpp:  I|type|neg|h3|h2|h1|h0  B|0/1  P|v/c/f|id  S|hex  M|hex  D|k|neg|q|tk|tneg|tq  O|Type|a,b
+// objects of user types are records of two ints (a, b); the comparison functions: "whole" compares both fields, "first" only a;
+// output objects of user types are 4 bytes; the copy functions: "plain" copies them, "inv" copies every byte inverted
 #include "vh.h"
 #include <cmath>
 #include <limits>
@@ -29,8 +32,12 @@ static const char* TYPE_NAME[6] = {"int", "unsigned int", "long int", "unsigned 
 static int type_index(const std::string& c) { for (int i = 0; i < 6; i++) if (c == TYPE_CODE[i]) return i; return -1; }
 static int type_index_by_name(const std::string& c) { for (int i = 0; i < 6; i++) if (c == TYPE_NAME[i]) return i; return -1; }
 
+struct Pair { int a, b; };
 static char g_pool[8];
 static int g_objects[8];
+static Pair g_pairs[64];         // data-store objects: slot (a & 7) * 8 + (b & 7) holds {a, b}
+static Pair* pair_slot(int a, int b) { Pair* p = &g_pairs[(a & 7) * 8 + (b & 7)]; p->a = a; p->b = b; return p; }
+static const Pair* pair_of(const void* p) { return (p >= (const void*) &g_pairs[0] && p < (const void*) &g_pairs[64]) ? (const Pair*) p : NULL; }
 static void fn1() {}
 static void fn2() {}
 typedef void (*fnptr)();
@@ -78,6 +85,12 @@ static std::string bytes_json(const unsigned char* p, size_t n)
     return a + "]";
 }
 
+static std::string obj_json(const char* tn, const Pair* p)
+{
+    char b[64]; snprintf(b, sizeof b, ",\"c\":[%d,%d]}", p ? p->a : -1, p ? p->b : -1);
+    return std::string("{\"t\":\"obj\"") + (tn ? ",\"tn\":" + vh_jstr(tn) : std::string("")) + b;
+}
+
 // ---- a parsed value (plain data; owned storage lives in g_steps, which is fully built before anything runs)
 struct PV {
     char kind;        // I B P S M D O or '-' (none)
@@ -86,9 +99,9 @@ struct PV {
     char pk; int id;
     std::string bytes;
     std::string dk, tk; bool dneg, tneg; long dq, tq;
-    std::string tn; int c;
+    std::string tn; Pair pr;
     std::string json;
-    PV() : kind('-'), itype(0), neg(false), mag(0), b(false), pk('v'), id(0), dneg(false), tneg(false), dq(0), tq(0), c(0), json("{\"t\":\"none\"}") {}
+    PV() : kind('-'), itype(0), neg(false), mag(0), b(false), pk('v'), id(0), dneg(false), tneg(false), dq(0), tq(0), json("{\"t\":\"none\"}") { pr.a = 0; pr.b = 0; }
     uint64_t pattern() const { return neg ? (uint64_t) 0 - mag : mag; }
     double dval() const { return xreal_value(dk, dneg, dq); }
     double dtol() const { return xreal_value(tk, tneg, tq); }
@@ -130,9 +143,10 @@ static bool parse_value(const std::string& enc, PV& v)
         return true;
     }
     if (f[0] == "O" && f.size() == 3) {
-        v.tn = f[1]; v.c = atoi(f[2].c_str());
-        char b[32]; snprintf(b, sizeof b, ",\"c\":%d}", v.c);
-        v.json = "{\"t\":\"obj\",\"tn\":" + vh_jstr(v.tn) + b;
+        std::vector<std::string> c = vh_split(f[2], ',');
+        if (c.size() != 2) return false;
+        v.tn = f[1]; v.pr.a = atoi(c[0].c_str()); v.pr.b = atoi(c[1].c_str());
+        v.json = obj_json(v.tn.c_str(), &v.pr);
         return true;
     }
     return false;
@@ -192,25 +206,32 @@ static std::string category_of(const std::string& text)
     return cat;
 }
 
-// ---- comparators / copiers for the user types TypeA, TypeB (content = one int)
-class IntComparator : public MockNamedValueComparator
-{
-public:
-    bool isEqual(const void* a, const void* b) CPPUTEST_OVERRIDE { return *(const int*) a == *(const int*) b; }
-    SimpleString valueToString(const void* a) CPPUTEST_OVERRIDE { return StringFrom(*(const int*) a); }
-};
-class IntCopier : public MockNamedValueCopier
-{
-public:
-    void copy(void* out, const void* in) CPPUTEST_OVERRIDE { *(int*) out = *(const int*) in; }
-};
-static IntComparator g_cmp;
-static IntCopier g_copier;
+// ---- comparison and copy functions for user types, one per mode; the C++ flavour wraps the C one
 extern "C" {
-static int c_int_equal(const void* a, const void* b) { return *(const int*) a == *(const int*) b; }
-static const char* c_int_to_string(const void* a) { static char buf[32]; snprintf(buf, sizeof buf, "%d", *(const int*) a); return buf; }
-static void c_int_copy(void* out, const void* in) { *(int*) out = *(const int*) in; }
+static int c_equal_whole(const void* x, const void* y) { return ((const Pair*) x)->a == ((const Pair*) y)->a && ((const Pair*) x)->b == ((const Pair*) y)->b; }
+static int c_equal_first(const void* x, const void* y) { return ((const Pair*) x)->a == ((const Pair*) y)->a; }
+static const char* c_string_whole(const void* x) { static char buf[48]; snprintf(buf, sizeof buf, "(%d,%d)", ((const Pair*) x)->a, ((const Pair*) x)->b); return buf; }
+static const char* c_string_first(const void* x) { static char buf[48]; snprintf(buf, sizeof buf, "(%d,_)", ((const Pair*) x)->a); return buf; }
+static void c_copy_plain(void* out, const void* in) { memcpy(out, in, 4); }
+static void c_copy_inv(void* out, const void* in) { for (int i = 0; i < 4; i++) ((unsigned char*) out)[i] = (unsigned char) ~((const unsigned char*) in)[i]; }
 }
+class ModeComparator : public MockNamedValueComparator
+{
+    bool whole_;
+public:
+    explicit ModeComparator(bool whole) : whole_(whole) {}
+    bool isEqual(const void* x, const void* y) CPPUTEST_OVERRIDE { return (whole_ ? c_equal_whole(x, y) : c_equal_first(x, y)) != 0; }
+    SimpleString valueToString(const void* x) CPPUTEST_OVERRIDE { return SimpleString(whole_ ? c_string_whole(x) : c_string_first(x)); }
+};
+class ModeCopier : public MockNamedValueCopier
+{
+    bool plain_;
+public:
+    explicit ModeCopier(bool plain) : plain_(plain) {}
+    void copy(void* out, const void* in) CPPUTEST_OVERRIDE { if (plain_) c_copy_plain(out, in); else c_copy_inv(out, in); }
+};
+static ModeComparator g_cmp_whole(true), g_cmp_first(false);
+static ModeCopier g_cpy_plain(true), g_cpy_inv(false);
 
 // ---- per-scope interpreter state
 struct ScopeRt {
@@ -225,20 +246,6 @@ static bool is_c() { return g_mode == "c"; }
 static MockSupport& cxx(const std::string& scope) { return scope.empty() ? mock() : mock(scope.c_str()); }
 static MockSupport_c* cc(const std::string& scope) { return scope.empty() ? mock_c() : mock_scope_c(scope.c_str()); }
 
-static void install_types()
-{
-    if (is_c()) {
-        mock_c()->installComparator("TypeA", c_int_equal, c_int_to_string);
-        mock_c()->installComparator("TypeB", c_int_equal, c_int_to_string);
-        mock_c()->installCopier("TypeA", c_int_copy);
-        mock_c()->installCopier("TypeB", c_int_copy);
-    } else {
-        mock().installComparator("TypeA", g_cmp);
-        mock().installComparator("TypeB", g_cmp);
-        mock().installCopier("TypeA", g_copier);
-        mock().installCopier("TypeB", g_copier);
-    }
-}
 static void remove_types()
 {
     if (is_c()) mock_c()->removeAllComparatorsAndCopiers();
@@ -268,7 +275,7 @@ static void cxx_expect_param(MockExpectedCall& e, const std::string& name, PV& v
         case 'S': e.withParameter(name.c_str(), v.bytes.c_str()); break;
         case 'M': e.withParameter(name.c_str(), (const unsigned char*) v.bytes.data(), v.bytes.size()); break;
         case 'D': if (v.tk == "dflt") e.withParameter(name.c_str(), v.dval()); else e.withParameter(name.c_str(), v.dval(), v.dtol()); break;
-        case 'O': e.withParameterOfType(v.tn.c_str(), name.c_str(), &v.c); break;
+        case 'O': e.withParameterOfType(v.tn.c_str(), name.c_str(), &v.pr); break;
     }
 }
 static void cxx_expect_return(MockExpectedCall& e, PV& v)
@@ -316,7 +323,7 @@ static void cxx_actual_param(MockActualCall& a, const std::string& name, PV& v)
         case 'S': a.withParameter(name.c_str(), v.bytes.c_str()); break;
         case 'M': a.withParameter(name.c_str(), (const unsigned char*) v.bytes.data(), v.bytes.size()); break;
         case 'D': a.withParameter(name.c_str(), v.dval()); break;
-        case 'O': a.withParameterOfType(v.tn.c_str(), name.c_str(), &v.c); break;
+        case 'O': a.withParameterOfType(v.tn.c_str(), name.c_str(), &v.pr); break;
     }
 }
 
@@ -343,7 +350,7 @@ static void c_expect_param(MockExpectedCall_c* e, const std::string& name, PV& v
         case 'S': e->withStringParameters(name.c_str(), v.bytes.c_str()); break;
         case 'M': e->withMemoryBufferParameter(name.c_str(), (const unsigned char*) v.bytes.data(), v.bytes.size()); break;
         case 'D': if (v.tk == "dflt") e->withDoubleParameters(name.c_str(), v.dval()); else e->withDoubleParametersAndTolerance(name.c_str(), v.dval(), v.dtol()); break;
-        case 'O': e->withParameterOfType(v.tn.c_str(), name.c_str(), &v.c); break;
+        case 'O': e->withParameterOfType(v.tn.c_str(), name.c_str(), &v.pr); break;
     }
 }
 static void c_expect_return(MockExpectedCall_c* e, PV& v)
@@ -391,7 +398,7 @@ static void c_actual_param(MockActualCall_c* a, const std::string& name, PV& v)
         case 'S': a->withStringParameters(name.c_str(), v.bytes.c_str()); break;
         case 'M': a->withMemoryBufferParameter(name.c_str(), (const unsigned char*) v.bytes.data(), v.bytes.size()); break;
         case 'D': a->withDoubleParameters(name.c_str(), v.dval()); break;
-        case 'O': a->withParameterOfType(v.tn.c_str(), name.c_str(), &v.c); break;
+        case 'O': a->withParameterOfType(v.tn.c_str(), name.c_str(), &v.pr); break;
     }
 }
 
@@ -416,8 +423,9 @@ static std::string named_value_json(const MockNamedValue& v, bool noneIfUnnamed 
     if (t == "void*") { snprintf(b, sizeof b, "{\"t\":\"void*\",\"id\":%d}", id_of_ptr(v.getPointerValue())); return b; }
     if (t == "const void*") { snprintf(b, sizeof b, "{\"t\":\"const void*\",\"id\":%d}", id_of_ptr(v.getConstPointerValue())); return b; }
     if (t == "void (*)()") { snprintf(b, sizeof b, "{\"t\":\"void (*)()\",\"id\":%d}", id_of_fptr(v.getFunctionPointerValue())); return b; }
-    if (t == "TypeA" || t == "TypeB") { snprintf(b, sizeof b, "{\"t\":\"obj\",\"tn\":\"%s\",\"c\":%d}", t.c_str(), v.getConstObjectPointer() ? *(const int*) v.getConstObjectPointer() : -1); return b; }
-    return "{\"t\":" + vh_jstr("other:" + t) + "}";
+    if (t == "const unsigned char*") return "{\"t\":\"const unsigned char*\"}";
+    // anything else is an object of a user type
+    return obj_json(t.c_str(), pair_of(v.getConstObjectPointer()));
 }
 // the C tagged union as the specification's value record; `has' tells whether there is a value at all (the union has no "none")
 static std::string c_value_json(const MockValue_c& v)
@@ -437,9 +445,7 @@ static std::string c_value_json(const MockValue_c& v)
         case MOCKVALUETYPE_CONST_POINTER: snprintf(b, sizeof b, "{\"t\":\"const void*\",\"id\":%d}", id_of_ptr(v.value.constPointerValue)); return b;
         case MOCKVALUETYPE_FUNCTIONPOINTER: snprintf(b, sizeof b, "{\"t\":\"void (*)()\",\"id\":%d}", id_of_fptr((fnptr) v.value.functionPointerValue)); return b;
         case MOCKVALUETYPE_MEMORYBUFFER: return "{\"t\":\"const unsigned char*\"}";
-        case MOCKVALUETYPE_OBJECT:
-            for (int i = 0; i < 8; i++) if (v.value.constObjectValue == &g_objects[i]) { snprintf(b, sizeof b, "{\"t\":\"obj\",\"c\":%d}", g_objects[i]); return b; }
-            return "{\"t\":\"obj\",\"c\":-1}";
+        case MOCKVALUETYPE_OBJECT: return obj_json(NULL, pair_of(v.value.constObjectValue));
     }
     return "{\"t\":\"other\"}";
 }
@@ -575,6 +581,9 @@ static void exec_step(Step& st)
         if (!is_c()) rt.call = &cxx(st.scope).actualCall(st.fn.c_str());
         else cc(st.scope)->actualCall(st.fn.c_str());
     } else if (op == "param") {
+        // a user-type parameter takes its comparator from the scope addressed last: address the call's own scope, as the
+        // fluent form mock("s").actualCall(..).withParameterOfType(..) does
+        if (st.v.kind == 'O') (void) cxx(st.scope);
         cxx_actual_param(*rt.call, st.name, st.v);        // (C interface: exec_step_c_call)
     } else if (op == "outparam") {
         std::vector<unsigned char>& buf = rt.bufs[st.name];
@@ -600,7 +609,17 @@ static void exec_step(Step& st)
     else if (op == "enable") { if (!is_c()) mock().enable(); else mock_c()->enable(); }
     else if (op == "ignoreothers") { if (!is_c()) mock().ignoreOtherCalls(); else mock_c()->ignoreOtherCalls(); }
     else if (op == "strict") { if (!is_c()) cxx(st.scope).strictOrder(); else cc(st.scope)->strictOrder(); }
-    else if (op == "setdata") {
+    else if (op == "installcmp") {
+        bool whole = st.ty == "whole";
+        if (!is_c()) cxx(st.scope).installComparator(st.name.c_str(), whole ? g_cmp_whole : g_cmp_first);
+        else cc(st.scope)->installComparator(st.name.c_str(), whole ? c_equal_whole : c_equal_first, whole ? c_string_whole : c_string_first);
+    } else if (op == "installcpy") {
+        bool plain = st.ty == "plain";
+        if (!is_c()) cxx(st.scope).installCopier(st.name.c_str(), plain ? g_cpy_plain : g_cpy_inv);
+        else cc(st.scope)->installCopier(st.name.c_str(), plain ? c_copy_plain : c_copy_inv);
+    } else if (op == "removeall") {
+        if (!is_c()) cxx(st.scope).removeAllComparatorsAndCopiers(); else cc(st.scope)->removeAllComparatorsAndCopiers();
+    } else if (op == "setdata") {
         PV& v = st.v;
         if (!is_c()) {
             MockSupport& m = cxx(st.scope);
@@ -610,7 +629,9 @@ static void exec_step(Step& st)
                 case 'S': m.setData(st.name.c_str(), v.bytes.c_str()); break;
                 case 'D': m.setData(st.name.c_str(), v.dval()); break;
                 case 'P': if (v.pk == 'v') m.setData(st.name.c_str(), ptr_of(v.id)); else if (v.pk == 'c') m.setData(st.name.c_str(), (const void*) ptr_of(v.id)); else m.setData(st.name.c_str(), fptr_of(v.id)); break;
-                case 'O': g_objects[v.c & 7] = v.c; m.setDataConstObject(st.name.c_str(), v.tn.c_str(), &g_objects[v.c & 7]); break;
+                case 'O': if (st.ty == "mut") m.setDataObject(st.name.c_str(), v.tn.c_str(), pair_slot(v.pr.a, v.pr.b));
+                          else m.setDataConstObject(st.name.c_str(), v.tn.c_str(), pair_slot(v.pr.a, v.pr.b));
+                          break;
             }
         } else {
             MockSupport_c* m = cc(st.scope);
@@ -620,7 +641,9 @@ static void exec_step(Step& st)
                 case 'S': m->setStringData(st.name.c_str(), v.bytes.c_str()); break;
                 case 'D': m->setDoubleData(st.name.c_str(), v.dval()); break;
                 case 'P': if (v.pk == 'v') m->setPointerData(st.name.c_str(), ptr_of(v.id)); else if (v.pk == 'c') m->setConstPointerData(st.name.c_str(), (const void*) ptr_of(v.id)); else m->setFunctionPointerData(st.name.c_str(), fptr_of(v.id)); break;
-                case 'O': g_objects[v.c & 7] = v.c; m->setDataConstObject(st.name.c_str(), v.tn.c_str(), &g_objects[v.c & 7]); break;
+                case 'O': if (st.ty == "mut") m->setDataObject(st.name.c_str(), v.tn.c_str(), pair_slot(v.pr.a, v.pr.b));
+                          else m->setDataConstObject(st.name.c_str(), v.tn.c_str(), pair_slot(v.pr.a, v.pr.b));
+                          break;
             }
         }
     } else if (op == "getdata") {
@@ -636,7 +659,7 @@ static void exec_step_c_call(Step& st)
 {
     ScopeRt& rt = g_rt[st.scope];
     if (st.op == "begin") { rt.bufs.clear(); g_ccall = cc(st.scope)->actualCall(st.fn.c_str()); }
-    else if (st.op == "param") c_actual_param(g_ccall, st.name, st.v);
+    else if (st.op == "param") { if (st.v.kind == 'O') (void) cc(st.scope); c_actual_param(g_ccall, st.name, st.v); }
     else if (st.op == "outparam") {
         std::vector<unsigned char>& buf = rt.bufs[st.name];
         buf.assign(BUFLEN, FILL);
@@ -670,7 +693,6 @@ static void log_line(const Step& st, const std::string& r, const std::string& te
 static size_t g_end;       // index of the "end" step (or g_steps.size())
 static void fixture_body()
 {
-    install_types();
     for (g_at = 0; g_at < g_end; g_at++) run_one(g_steps[g_at]);
 }
 
@@ -690,7 +712,6 @@ static void run_execution()
     for (int i = 0; i < 8; i++) g_objects[i] = i;
     if (g_mode == "rec") {
         mock().setMockFailureStandardReporter(&g_rec);
-        install_types();
         bool failed = false; std::string why;
         for (size_t i = 0; i < g_end; i++) {
             Step& st = g_steps[i];
@@ -800,7 +821,13 @@ static bool parse_step(const std::vector<std::string>& f, Step& st)
     else if (op == "setdata" && f.size() >= 4) {
         st.scope = f[1]; st.name = f[2];
         if (!parse_value(f[3], st.v)) return false;
-        e = ",\"s\":" + vh_jstr(st.scope) + ",\"k\":" + vh_jstr(st.name) + ",\"v\":" + st.v.json;
+        st.ty = f.size() >= 5 ? f[4] : "const";
+        e = ",\"s\":" + vh_jstr(st.scope) + ",\"k\":" + vh_jstr(st.name) + ",\"v\":" + st.v.json + ",\"how\":" + vh_jstr(st.ty);
+    } else if ((op == "installcmp" || op == "installcpy") && f.size() >= 4) {
+        st.scope = f[1]; st.name = f[2]; st.ty = f[3];
+        if (op == "installcmp" ? (st.ty != "whole" && st.ty != "first") : (st.ty != "plain" && st.ty != "inv")) return false;
+        e = ",\"s\":" + vh_jstr(st.scope) + ",\"tn\":" + vh_jstr(st.name) + ",\"md\":" + vh_jstr(st.ty);
+    } else if (op == "removeall" && f.size() >= 2) { st.scope = f[1]; e = ",\"s\":" + vh_jstr(st.scope);
     } else if (op == "getdata" && f.size() >= 3) { st.scope = f[1]; st.name = f[2]; e = ",\"s\":" + vh_jstr(st.scope) + ",\"k\":" + vh_jstr(st.name); }
     else if (op == "left" || op == "check" || op == "clear" || op == "disable" || op == "enable" || op == "ignoreothers" || op == "end") {}
     else return false;
